@@ -21,7 +21,7 @@ pub fn def() -> CheckDef {
 fn meta(_ctx: &Ctx) -> Meta {
     Meta {
         level: "exploration",
-        rule: "every extraction runs in a fresh jail J with the target at J/l1/l2/l3/l4/l5/target and canary files/directories on every level outside the target; a full recursive snapshot (type, mode, size, mtime ns, content hash, link target) of J minus the target is taken before and after and must be identical. Positive: seeded built packages (nested directories, explicit directory entries, symlinks, all permission bits incl. setuid/setgid/sticky) must produce every regular file / directory / symlink at target+path with the archived content, permission bits and link target. Hostile (hand-encoded header + cpio; all absolute paths and symlink targets point into J, '..' chains at most 5 long): '..' in directory or base names, base names with '/', absolute base names, empty names, duplicate paths, a symlink followed by a file of the same path or below it (absolute and relative targets, to a file and to a directory), directory then symlink of the same name, FIFO/char/block/socket/zero type bits, names disagreeing between cpio and header; result must be Ok or Err, never a panic. Release and verifdbg. distinct_nontrivial = distinct extractions whose jail snapshots were compared".into(),
+        rule: "every extraction runs in a fresh jail J with the target at J/l1/l2/l3/l4/l5/target and canary files/directories on every level outside the target; a full recursive snapshot (type, mode, size, mtime ns, content hash, link target) of J minus the target is taken before and after and must be identical. Positive: seeded built packages (nested directories, explicit directory entries, symlinks, all permission bits incl. setuid/setgid/sticky) must produce every regular file / directory / symlink at target+path with the archived content, permission bits and link target. Hostile (hand-encoded header + cpio; all absolute paths and symlink targets point into J, '..' chains at most 5 long): '..' in directory or base names, base names with '/', absolute base names, empty names, duplicate paths, a symlink followed by a file of the same path or below it (absolute and relative targets, to a file and to a directory), directory then symlink of the same name, FIFO/char/block/socket/zero type bits, names disagreeing between cpio and header; result must be Ok or Err, never a panic. Release and verifdbg. Unprivileged phase: built packages (incl. read-only directory entries with children) are written to a file and extracted by a child process running as uid 65534; same oracles. distinct_nontrivial = distinct extractions whose jail snapshots were compared".into(),
         assumptions: vec!["hostile inputs are constructed so that an escaping write lands inside the jail".into()],
         floor_distinct: 100,
     }
@@ -186,7 +186,7 @@ fn positive_cfg(rng: &mut Rng) -> BuildCfg {
                 content_kind: "zero".into(),
                 size: 0,
                 content_seed: 0,
-                mode: Some(0o040000 | [0o755, 0o700, 0o1777, 0o2775, 0o750, 0o711][rng.usize(6)]),
+                mode: Some(0o040000 | [0o755, 0o700, 0o1777, 0o2775, 0o750, 0o711, 0o555, 0o500][rng.usize(8)]),
                 source_perm: 0o644,
                 user: None,
                 group: None,
@@ -391,8 +391,100 @@ fn hostile_package(h: &Hostile) -> Vec<u8> {
     package_with_files("hostile", &h.files, &archive, None, h.stripped)
 }
 
+/// built packages extracted by an UNPRIVILEGED user (uid 65534) in a child process: root is not
+/// stopped by permission bits, so as root a read-only directory entry never gets in the way of the
+/// entries below it; an ordinary user must get the same tree
+fn unprivileged_phase(ctx: &Ctx, rep: &Report, base: &Path) {
+    if unsafe { libc::geteuid() } != 0 {
+        rep.note("not running as root: the unprivileged-user phase is the ordinary phase here");
+        return;
+    }
+    let exe = std::env::current_exe().unwrap();
+    let n: u64 = if ctx.is_dbg() { 0 } else { ctx.tier.pick(60, 1500) };
+    par_for(ctx.threads, n, 1, |i| {
+        let mut rng = Rng::for_case(ctx.seed, "C12-unpriv", i);
+        let cfg = positive_cfg(&mut rng);
+        let jroot = base.join(format!("u{i}"));
+        let jail = make_jail(&jroot);
+        let src = jroot.join("outside-dir").join("sources");
+        let w = || json!({"kind": "positive-unprivileged", "cfg": cfg});
+        let pkg = match guard(|| build(&cfg, &src)) {
+            Ok(Ok(p)) => p,
+            _ => {
+                let _ = std::fs::remove_dir_all(&jroot);
+                return;
+            }
+        };
+        let pkgfile = jroot.join("outside-dir").join("package.rpm");
+        if pkg.write_file(&pkgfile).is_err() {
+            let _ = std::fs::remove_dir_all(&jroot);
+            return;
+        }
+        // the user owns the jail (so that the target can be created) and can reach it
+        let _ = std::process::Command::new("chown").arg("-R").arg("65534:65534").arg(&jroot).status();
+        let mut up = jroot.parent();
+        while let Some(d) = up {
+            if d == Path::new("/") {
+                break;
+            }
+            if let Ok(md) = std::fs::metadata(d) {
+                use std::os::unix::fs::PermissionsExt;
+                let m = md.permissions().mode();
+                if m & 0o005 != 0o005 {
+                    let _ = std::fs::set_permissions(d, std::fs::Permissions::from_mode(m | 0o005));
+                }
+            }
+            up = d.parent();
+        }
+        let jail = Jail { before: snapshot(&jail.root, &jail.target), ..jail };
+        rep.eval(1);
+        let out = std::process::Command::new(&exe).arg("extract-as").arg("65534").arg(&pkgfile).arg(&jail.target).output();
+        let line = out.as_ref().map(|o| String::from_utf8_lossy(&o.stdout).lines().last().unwrap_or("").to_string()).unwrap_or_default();
+        let diff = jail_diff(&jail);
+        rep.nontrivial(crate::checks::c06::cfg_hash(&cfg) ^ 0x5a5a);
+        if !diff.is_empty() {
+            rep.violation("escape:positive-package:unprivileged", format!("extracting a built package as an unprivileged user changed the jail outside the target: {}", diff.join("; ")), w(), cfg.files.len() as u64);
+        }
+        if line == "OK" {
+            rep.count("unprivileged.extracted", 1);
+            for (k, what) in check_target(&cfg, &jail.target) {
+                rep.violation(format!("{k}:unprivileged"), what, w(), cfg.files.len() as u64);
+            }
+        } else if let Some(e) = line.strip_prefix("ERR ") {
+            rep.violation(format!("positive:extract-fails:unprivileged:{}", crate::util::par::normalize_msg(e)), format!("extracting a built package as an unprivileged user fails: {e}"), w(), cfg.files.len() as u64);
+        } else if let Some(e) = line.strip_prefix("PANIC ") {
+            rep.violation("panic:extract:unprivileged".to_string(), format!("extract panics: {e}"), w(), cfg.files.len() as u64);
+        } else {
+            rep.inconclusive(format!("unprivileged extraction helper reported {line:?} ({:?})", out.map(|o| o.status)));
+        }
+        let _ = std::process::Command::new("chmod").arg("-R").arg("u+rwx").arg(&jroot).status();
+        let _ = std::fs::remove_dir_all(&jroot);
+    });
+}
+
+/// `rpmverif extract-as <uid> <package file> <target>`: drop privileges, then parse and extract.
+/// Prints one line: "OK", "ERR <message>" or "PANIC <message>".
+pub fn extract_as_main(args: &[String]) -> i32 {
+    let uid: u32 = args[0].parse().unwrap_or(65534);
+    unsafe {
+        if libc::setgroups(0, std::ptr::null()) != 0 || libc::setgid(uid) != 0 || libc::setuid(uid) != 0 {
+            println!("SETUID-FAILED");
+            return 3;
+        }
+        libc::umask(0o022);
+    }
+    let r = guard(|| rpm::Package::open(&args[1]).and_then(|p| p.extract(&args[2])));
+    match r {
+        Ok(Ok(())) => println!("OK"),
+        Ok(Err(e)) => println!("ERR {}", e.to_string().replace('\n', " ")),
+        Err(p) => println!("PANIC {} @ {}", p.message.replace('\n', " "), p.site()),
+    }
+    0
+}
+
 fn run(ctx: &Ctx, rep: &Report) {
     let base = ctx.work_dir("jails");
+    unprivileged_phase(ctx, rep, &base);
     // positive
     let npos: u64 = if ctx.is_dbg() { ctx.tier.pick(40, 400) } else { ctx.tier.pick(150, 6000) };
     par_for(ctx.threads, npos, 1, |i| {
